@@ -5,6 +5,7 @@ import (
 	"fmt"
 	"sort"
 	"testing"
+	"time"
 
 	"github.com/kelindar/column"
 	"github.com/kelindar/column/commit"
@@ -169,6 +170,30 @@ func TestC15(t *testing.T) {
 				})
 				drainCheck(t, n0, map[uint32]bool{}, "read-only transaction")
 			},
+			"readArchive": func(t *rapid.T) {
+				// somebody reads an archive of OLDER commits in this process (Log.Append / Log.Range): the
+				// IDs of the commits emitted afterwards must still be fresh
+				recs := log.Since(0)
+				if len(recs) == 0 {
+					t.Skip("nothing recorded yet")
+				}
+				var buf bytes.Buffer
+				arch := commit.Open(&buf)
+				upto := rapid.IntRange(1, min(len(recs), 6)).Draw(t, "archived")
+				for _, rc := range recs[:upto] {
+					cl := rc.Clone.Clone()
+					cl.ID = rc.ID
+					if err := arch.Append(cl); err != nil {
+						mc.fail(t, "Log.Append: %v", err)
+					}
+				}
+				n := 0
+				if err := commit.Open(bytes.NewReader(buf.Bytes())).Range(func(commit.Commit) error { n++; return nil }); err != nil || n != upto {
+					mc.fail(t, "Log.Range over an archive of %d commits delivered %d, err=%v", upto, n, err)
+				}
+				mc.logf("archive of the first %d commits written and read back", upto)
+				mc.flag("archive-read-in-process")
+			},
 			"prefill": func(t *rapid.T) {
 				n0 := log.Len()
 				mc.prefillAction(t)
@@ -269,5 +294,71 @@ func TestC15Snapshot(t *testing.T) {
 		}
 		mc.CheckFull(t, false)
 		RecordCase("C15", mc.Desc(), during > 0, "commits-during-snapshot")
+	})
+}
+
+// TestC15Vacuum: the background cleanup is a committing transaction like any other: what it
+// removes must be emitted - exactly once per block, with IDs that fit the stream. Rows with a
+// short time-to-live are inserted into one or two blocks; once the cleanup has removed them the
+// recorded stream, replayed on a follower that never cleans up by itself, must reproduce the
+// primary, and the stream-wide ID invariants must hold.
+func TestC15Vacuum(t *testing.T) {
+	rapid.Check(t, func(t *rapid.T) {
+		twoBlocks := rapid.Bool().Draw(t, "two-blocks")
+		k := rapid.IntRange(1, 12).Draw(t, "ttl-rows")
+		interval := time.Duration(rapid.SampledFrom([]int{1, 5}).Draw(t, "vacuum-ms")) * time.Millisecond
+		log := &recLogger{}
+		mk := func(w commit.Logger, vac time.Duration) *column.Collection {
+			c := column.NewCollection(column.Options{Vacuum: vac, Writer: w})
+			c.CreateColumn("id", column.ForUint64())
+			return c
+		}
+		c := mk(log, interval)
+		defer c.Close()
+		base := 3
+		if twoBlocks {
+			base = 16384 - 2 // the TTL rows straddle the block boundary
+		}
+		c.Query(func(txn *column.Txn) error {
+			for i := 0; i < base; i++ {
+				txn.Insert(func(r column.Row) error { r.SetUint64("id", uint64(1<<32+i)); return nil })
+			}
+			return nil
+		})
+		for i := 0; i < k; i++ {
+			ttl := time.Duration(rapid.IntRange(15, 50).Draw(t, "ttl-ms")) * time.Millisecond
+			c.Insert(func(r column.Row) error { r.SetUint64("id", uint64(i)); r.SetTTL(ttl); return nil })
+		}
+		deadline := time.Now().Add(20 * time.Second)
+		for c.Count() != base {
+			if time.Now().After(deadline) {
+				t.Skip("the cleanup did not remove the expired rows within 20 s (C17 judges that)")
+			}
+			time.Sleep(2 * time.Millisecond)
+		}
+		c17Present(c) // a full Range waits for a cleanup commit that is still inside its latch
+		sc := newStreamChecker()
+		follower := mk(nil, time.Hour)
+		defer follower.Close()
+		for _, rc := range log.Since(0) {
+			if err := sc.add(rc); err != nil {
+				t.Fatalf("C15 violated (stream with cleanup commits): %v", err)
+			}
+			cl := rc.Clone.Clone()
+			cl.ID = rc.ID
+			if err := follower.Replay(cl); err != nil {
+				t.Fatalf("Replay: %v", err)
+			}
+		}
+		p, f := c17Present(c), c17Present(follower)
+		for id := range f {
+			if !p[id] {
+				t.Fatalf("C15 violated: the cleanup removed row id=%d (and %d others) from the primary, but no commit for that was emitted: a follower replaying the whole stream still holds it (%d rows vs %d)", id, len(f)-len(p)-1, len(f), len(p))
+			}
+		}
+		if len(p) != len(f) || follower.Count() != c.Count() {
+			t.Fatalf("C15 violated: after replaying the whole stream (incl. the cleanup's commits) the follower holds %d rows (Count %d), the primary %d (Count %d)", len(f), follower.Count(), len(p), c.Count())
+		}
+		RecordCase("C15", fmt.Sprintf("vacuum: %d TTL rows, two blocks=%v, interval %s, %d commits", k, twoBlocks, interval, log.Len()), true, "cleanup-commits-in-the-stream")
 	})
 }
